@@ -5,6 +5,7 @@ Numbers are bit patterns (`Nat < 2^(8w)`), floats are their IEEE bits, strings a
 with an arbitrary validity predicate `valid` standing for `String::from_utf8`.
 -/
 import SradModel.Proofs.Codec
+import SradModel.Generated.KindTable
 
 namespace Srad.Codec
 
@@ -13,29 +14,29 @@ namespace Srad.Codec
 /-- converting a value of any scalar type to its protobuf value and back yields it -/
 theorem C10_scalar_roundtrip (t : STy) (v : SV) (h : t.holds v = true) :
     fromProto t (toProto t v) = .ok v := by
-  sorry
+  exact scalar_roundtrip t v h
 
 /-! ### fixed-width arrays: i8…u64, f32, f64, DateTime (w = 1, 2, 4, 8) -/
 
 /-- encoded form = concatenation of the little-endian bytes of each element … -/
 theorem C10_array_form (w : Nat) (l : List Nat) : encodeW w l = l.flatMap (le w) := by
-  sorry
+  exact encodeW_eq_flatMap w l
 
 /-- … where byte `i` of an element is `(n / 256^i) % 256` (least significant first) -/
 theorem C10_le_form (w n : Nat) :
     le w n = (List.range w).map (fun i => UInt8.ofNat (n / 256 ^ i % 256)) := by
-  sorry
+  exact le_form_aux w n
 
 theorem C10_array_roundtrip (w : Nat) (hw : 0 < w) (l : List Nat)
     (h : ∀ x ∈ l, x < 2 ^ (8 * w)) : (decodeW w (encodeW w l)).res = .ok l := by
-  sorry
+  rw [decodeW_encodeW w hw l h]
 
 /-! ### boolean arrays -/
 
 /-- every length below 2^32 (the count is `len as u32`), every bit pattern -/
 theorem C10_bool_roundtrip (l : List Bool) (h : l.length < 4294967296) :
     (decodeBool (encodeBool l)).res = .ok l := by
-  sorry
+  exact decodeBool_encodeBool l h
 
 /-- encoded form: 4-byte little-endian count, then ⌈n/8⌉ bytes; element `i` is bit `7 - i % 8`
 (most significant first) of byte `4 + i / 8` -/
@@ -43,53 +44,77 @@ theorem C10_bool_form (l : List Bool) :
     (encodeBool l).take 4 = le 4 (l.length % 4294967296) ∧
     (encodeBool l).length = 4 + (l.length + 7) / 8 ∧
     ∀ i (hi : i < l.length), ∃ b, (encodeBool l)[4 + i / 8]? = some b ∧ bit b (7 - i % 8) = l[i] := by
-  sorry
+  exact ⟨encodeBool_take4 l, encodeBool_length l, encodeBool_bit l⟩
 
 /-! ### string arrays -/
 
 theorem C10_string_form (l : List Bytes) :
     encodeStr l = l.flatMap (fun s => s ++ [(0 : UInt8)]) := by
-  sorry
+  exact encodeStr_eq_flatMap l
 
 /-- strings over arbitrary valid bytes without NUL -/
 theorem C10_string_roundtrip (valid : Bytes → Bool) (l : List Bytes)
     (h : ∀ s ∈ l, valid s = true ∧ (0 : UInt8) ∉ s) :
     (decodeStr valid (encodeStr l)).res = .ok l := by
-  sorry
+  rw [decodeStr_encodeStr valid l h]
 
 /-! ### datatype-directed decoding -/
 
 /-- the variant produced is the one named by the datatype -/
 theorem C10_kind_named_by_datatype (valid : Bytes → Bool) (dt k : DT) (pv : PV) (v : KV)
     (h : kindOf valid dt pv = .ok (k, v)) : k = dt := by
-  sorry
+  exact kindOf_name valid dt k pv v h
 
 /-- … holding the same value: scalars -/
 theorem C10_kind_scalar_same_value (valid : Bytes → Bool) (dt : DT) (t : STy) (v : SV)
     (harm : (kindArm dt).2 = .scalar t) (h : t.holds v = true) :
     kindOf valid dt (toProto t v) = .ok (dt, .scalar v) := by
-  sorry
+  refine kindOf_of_runDecoder valid dt _ _ _ harm ?_
+  simp [runDecoder, scalar_roundtrip t v h]
 
 /-- … fixed-width arrays -/
 theorem C10_kind_array_same_value (valid : Bytes → Bool) (dt : DT) (w : Nat) (l : List Nat)
     (harm : (kindArm dt).2 = .arrW w) (h : ∀ x ∈ l, x < 2 ^ (8 * w)) :
     kindOf valid dt (.bytes (encodeW w l)) = .ok (dt, .arrN l) := by
-  sorry
+  refine kindOf_of_runDecoder valid dt _ _ _ harm ?_
+  simp [runDecoder, liftDec, decodeW_encodeW w (arrW_width_pos dt w harm) l h]
 
 /-- … boolean arrays, string arrays, raw bytes -/
 theorem C10_kind_bool_same_value (valid : Bytes → Bool) (l : List Bool) (h : l.length < 4294967296) :
     kindOf valid .boolarr (.bytes (encodeBool l)) = .ok (.boolarr, .arrB l) := by
-  sorry
+  refine kindOf_of_runDecoder valid _ .arrBool _ _ rfl ?_
+  simp [runDecoder, liftDec, decodeBool_encodeBool l h]
 
 theorem C10_kind_string_same_value (valid : Bytes → Bool) (l : List Bytes)
     (h : ∀ s ∈ l, valid s = true ∧ (0 : UInt8) ∉ s) :
     kindOf valid .stringarr (.bytes (encodeStr l)) = .ok (.stringarr, .arrS l) := by
-  sorry
+  refine kindOf_of_runDecoder valid _ .arrStr _ _ rfl ?_
+  simp [runDecoder, liftDec, decodeStr_encodeStr valid l h]
 
 theorem C10_kind_raw_same_value (valid : Bytes → Bool) (dt : DT) (b : Bytes)
     (harm : (kindArm dt).2 = .rawBytes) :
     kindOf valid dt (.bytes b) = .ok (dt, .raw b) := by
-  sorry
+  refine kindOf_of_runDecoder valid dt _ _ _ harm ?_
+  simp [runDecoder]
+
+/-! ### T-table: the decision table of `MetricValueKind::try_from_metric_value`, regenerated on
+every run by executing the freshly compiled crate on all 35 datatypes × a sample of every
+metric-value variant (`SradModel/Generated/KindTable.lean`). A change to any match arm makes
+one of these two obligations fail at `lake build`. -/
+
+/-- the compiled code and the model's `kindOf` agree on every cell of the table -/
+theorem C10_kind_table_matches_model :
+    ∀ row ∈ Srad.Generated.kindTable,
+      (DT.ofCode row.1).map (fun dt => kindShape (fun _ => true) dt row.2.1) = some row.2.2 := by
+  decide +kernel
+
+/-- in the compiled code itself, whenever decoding succeeds the variant is the one named by
+the datatype (all 35 datatypes are in the table) -/
+theorem C10_kind_table_named_by_datatype :
+    (∀ row ∈ Srad.Generated.kindTable,
+      (match row.2.2 with | KShape.ok k => decide (k = row.1) | _ => true) = true) ∧
+    ((Srad.Generated.kindTable.map (·.1)).eraseDups.length = 35) := by
+  decide +kernel
 
 /-! ### non-vacuity (tests, not the claim) -/
 
